@@ -1,0 +1,30 @@
+//go:build verif
+
+// Contracts for govc (comment-only file; see /verif/DESIGN.md section 3).
+// Generated skeleton (tools/gen_zk_contracts.py): nil-safety of the verifier side for arbitrary decoded proofs.
+package zkencelg
+
+// Shape that the message templates (Empty) give a proof before decoding and that the CBOR decoder keeps:
+// unexported fields, the embedded commitment pointer and interface-typed fields stay non-nil (A-CBOR).
+//@ pred shaped(p *Proof) := p.group != nil && p.Commitment != nil && p.W != nil && p.Y != nil && p.Z != nil
+
+//@ func Empty
+//@   nopanic[C05]
+//@   requires group != nil
+//@   modifies nothing
+//@   allocates
+//@   ensures result != nil && shaped(result)
+
+//@ func (*Proof).IsValid
+//@   nopanic[C05]
+//@   inline
+//@   requires public.C != nil && public.A != nil && public.B != nil && public.X != nil && pkok(public.Prover) && pedok(public.Aux) && (p != nil ==> shaped(p))
+
+//@ func (*Proof).Verify
+//@   nopanic[C05]
+//@   requires hash != nil && hash.h != nil && public.C != nil && public.A != nil && public.B != nil && public.X != nil && pkok(public.Prover) && pedok(public.Aux) && (p != nil ==> shaped(p))
+
+//@ func challenge
+//@   nopanic[C05]
+//@   inline
+//@   requires hash != nil && hash.h != nil && group != nil && public.C != nil && public.A != nil && public.B != nil && public.X != nil && pkok(public.Prover) && pedok(public.Aux) && commitment != nil
